@@ -333,6 +333,17 @@ def run(ctx):
     cg = res.clause('C13.g', 'R-PROV', 'recycle rate, timeout and process mode are stored as the caller gave them', floor=3)
     common.ctor_params_clause(ctx, res, cg, 'C13', 'C13.g', 'CompareExecutionConfig')
     common.ctor_calls_agree_clause(ctx, res, cg, 'C13', 'C13.g', 'CompareExecutionConfig')
+    # ---- C13.j the worker stays interruptible: it changes no signal disposition (ignoring SIGINT / SIGTERM makes it survive the very
+    # interrupt that aborts the parent's run, and nothing else ends a worker that is stuck in a replay)
+    cj13 = res.clause('C13.j', 'R-WHOCALLS', 'the worker installs / ignores no signal handlers', floor=1)
+    sigs = [(m_, n) for m_ in eq.methods.values() for n in ast.walk(m_.node)
+            if isinstance(n, ast.Call) and norm(n.func) in ('signal.signal', 'signal.pthread_sigmask', 'signal.set_wakeup_fd')]
+    cj13.instance('no signal disposition is changed by the equalizer / its worker', eq.name, not sigs)
+    cj13.evaluations += 1
+    for m_, n in sigs[:1]:
+        res.add(Finding('C13', 'C13.j', 'R-WHOCALLS', m_.file, m_.qualname, n.lineno, norm(n)[:100],
+                        '%s changes a signal disposition (`%s`): a worker that ignores the interrupt which aborts the parent\'s run is left behind, stuck in '
+                        'its replay, since the parent never reaches the timeout kill' % (m_.qualname, norm(n)[:60])))
     # ---- C13.h the shutdown of a run lives in the finalisation of its generator: whoever starts runs for the caller hands the generators over
     # and keeps no reference (a kept reference postpones the finalisation - and the worker's shutdown - for as long as that object lives)
     from . import common as _cm13
